@@ -1,4 +1,4 @@
 SPECIFICATION SpecBacklogged
-CONSTANTS Rate = 3  Scale = 2  Burst = 4  MaxPkt = 3  MaxGap = 3  MaxLen = 5
+CONSTANTS Rate = 3  Scale = 2  Burst = 6  MaxPkt = 3  MaxGap = 3  MaxLen = 5
 INVARIANTS Upper Lower
 CHECK_DEADLOCK FALSE
